@@ -262,6 +262,22 @@ func VerifC18History() {
 		addBlock(s1, 3)
 	}
 
+	// a fork offered too deep below the tip is refused: the repository must not know that header
+	refused := -1
+	{
+		h.cfg.MaxBranchDepth = 2
+		i := len(h.hdr)
+		txs := []bitcoin.Hash32{txidOf(i, 0), txidOf(i, 1)}
+		root, _, _ := refMerkle(txs, 0)
+		hd := &wire.BlockHeader{Version: 1, Timestamp: uint32(1600000000 + 600*i), Bits: verifBitsTable[0], Nonce: uint32(1000 + i), MerkleRoot: root}
+		hd.PrevBlock = h.hash[1]
+		idx := h.record(hd, 1)
+		if err := h.repo.ProcessHeader(h.ctx, hd); err != nil {
+			refused = idx
+			txsOf[idx] = txs
+		}
+		h.cfg.MaxBranchDepth = 1000
+	}
 	switch pick("then", 4) {
 	case 1:
 		if err := h.saveLoad(); err != nil {
@@ -300,6 +316,12 @@ func VerifC18History() {
 	height, longest, err := h.repo.VerifyMerkleProof(h.ctx, proof)
 	onBest := h.isAncestor(b, tip)
 	verifObserve("proof", b, j, withHeader, onBest, err == nil, height, longest)
+	if b == refused {
+		verifReach("refused-header")
+		verifAssert(err != nil, "proof-for-refused-header-verifies")
+		verifReach("done")
+		return
+	}
 	if onBest {
 		verifReach("best-chain-block")
 		verifAssert(err == nil, "valid-proof-for-best-chain-block-rejected")
